@@ -33,6 +33,9 @@ def strat_conv(tier):
         "pts": st.lists(_point(), min_size=1, max_size=6),
         "exp": st.one_of(st.just(0), st.integers(-150, 150)),
         "scalar_z": st.booleans(),
+        # integer-typed coordinate arrays (pixel indices) with a non-integer z, scalar or array
+        "int_grid": st.one_of(st.none(), st.fixed_dictionaries({
+            "dtype": st.sampled_from(["int64", "int64", "int32"]), "z": st.floats(-9.75, 9.75), "z_scalar": st.booleans()})),
     })
 
 
@@ -153,6 +156,29 @@ def run_conv(case):
         if a.shape != b.shape or not np.array_equal(a, b):
             return Outcome(failure("scalar_z", "cyl->cart with scalar z differs from broadcast z"))
         labels.append("scalar_z")
+    # --- integer-typed inputs are the same points as their float copies
+    ig = case.get("int_grid")
+    if ig is not None:
+        dt = np.dtype(ig["dtype"])
+        lo = 0 if dt.kind == "u" else -100
+        xi = np.array([min(100, max(lo, int(round(100 * a[0])))) for a in case["pts"]], dtype=dt)
+        yi = np.array([min(100, max(lo, int(round(100 * a[1])))) for a in case["pts"]], dtype=dt)
+        zz = float(ig["z"]) if ig["z_scalar"] else np.array([ig["z"] + 0.5 * i for i in range(len(xi))])
+        xf, yf = xi.astype(float), yi.astype(float)
+        for nm, f in (("cartesian->cylindrical", c2c), ("cylindrical->cartesian", y2c)):
+            a = np.asarray(f([xi, yi, zz]), dtype=float)
+            b = np.asarray(f([xf, yf, zz]), dtype=float)
+            if a.shape != b.shape or not np.allclose(a, b, rtol=1e-14, atol=0, equal_nan=True):
+                return Outcome(failure("integer_input", "%s of %s-typed coordinates with z=%r differs from the float copy: %r vs %r"
+                                       % (nm, dt.name, zz if ig["z_scalar"] else "array", a.tolist(), b.tolist()), pair=nm), True, labels)
+        if not ig["z_scalar"]:
+            zi = np.array([min(100, max(lo, int(round(100 * a[2])))) for a in case["pts"]], dtype=dt)
+            for nm, f in (("cartesian->spherical", c2s), ("spherical->cartesian", s2c), ("cylindrical->spherical", y2s), ("spherical->cylindrical", s2y)):
+                a = np.asarray(f(np.array([xi, yi, zi])), dtype=float)
+                b = np.asarray(f(np.array([xf, yf, zi.astype(float)])), dtype=float)
+                if a.shape != b.shape or not np.allclose(a, b, rtol=1e-14, atol=0, equal_nan=True):
+                    return Outcome(failure("integer_input", "%s of %s-typed coordinates differs from the float copy" % (nm, dt.name), pair=nm), True, labels)
+        labels.append("integer_typed_input")
     # identity pairs and unknown systems
     for sname in ("cartesian", "spherical", "cylindrical"):
         if not np.array_equal(ftf(sname, sname)(pts), pts):
